@@ -17,7 +17,7 @@ resulting tree to this model as a `PyAst`.  What is modelled here is **hypatia's
   inside lists and tuples (`process_List`));
 * `BoolOp.__init__` flattening (`mkBool`), `Comparator.negate` for the `not in any/all` case;
 * `Comparator._get_value` (`getValue`: through nested lists/tuples, `NameError`; `TypeError` when
-  `names` is `None`) and `_Range._get_start/_get_end` (`getBound`: top level only);
+  `names` is `None`), which `_Range._get_start/_get_end` apply to the bounds as well (fix D21);
 * the four `__eq__` methods (`weq`) over objects whose leaf equality is Python's
   (`1 == True == 1.0`, `Const.pyEq`).
 
@@ -400,20 +400,15 @@ def getValueList (names : Names) : List W → Except Err (List W)
     pure (v :: vs)
 end
 
-/-- `_Range._get_start` / `_get_end`: only a `Name` at top level is resolved -/
-def getBound (names : Names) : W → Except Err W
-  | .nameObj n => lookupName names n
-  | w => .ok w
-
 /-- the constant a leaf hands to its index: `cmp` with `_get_value`, `range` with
-`_get_start`, `_get_end` (in this order) -/
+`_get_start`, `_get_end` (in this order; both are `_get_value` of the bound since fix D21) -/
 def resolveLeaf (names : Names) : W → Except Err W
   | .cmp c i v => do
     let v' ← getValue names v
     pure (.cmp c i v')
   | .range n i s e sx ex => do
-    let s' ← getBound names s
-    let e' ← getBound names e
+    let s' ← getValue names s
+    let e' ← getValue names e
     pure (.range n i s' e' sx ex)
   | _ => .error .attributeError
 
